@@ -232,6 +232,9 @@ func c13Run(f []string) string {
 	if op == "axes" || op == "axesagg" {
 		return c13RunAxes(f)
 	}
+	if op == "topn" {
+		return c13RunTopN(f)
+	}
 	if op == "tparse" {
 		return c13TParse(string(UnHex(f[1])), UnHexListS(f[2]))
 	}
@@ -951,8 +954,10 @@ func c13Gen(r *Rand, tier string) []string {
 	// two sorters (rows, columns) and the render loop of table / heatmap / spark
 	if tier == "thorough" {
 		out = append(out, c13AxesCases(r, 8000)...)
+		out = append(out, c13TopNCases(r, 6000)...)
 	} else {
 		out = append(out, c13AxesCases(r, 500)...)
+		out = append(out, c13TopNCases(r, 300)...)
 	}
 	// the modelled library calls against the real ones
 	if tier == "thorough" {
@@ -1057,6 +1062,20 @@ func c13Stats(cases []string) map[string]int {
 			}
 			if f[1] == "1" {
 				st["groups.reversed"]++
+			}
+			continue
+		case "topn":
+			n, _ := strconv.Atoi(f[4])
+			k := len(UnHexListS(f[2]))
+			switch {
+			case n < 0:
+				st["topn.negative"]++
+			case n == 0:
+				st["topn.zero"]++
+			case n < k:
+				st["topn.cuts"]++
+			default:
+				st["topn.keepsAll"]++
 			}
 			continue
 		case "axes", "axesagg":
@@ -1277,6 +1296,9 @@ func c13Stats(cases []string) map[string]int {
 // every arrival order each.  The two `sortspec` lines are the known-finding witnesses.
 func c13Corpus() []string {
 	var out []string
+	// first, so that they run in a process that has built no sorter yet: each of these cases is a self-contained failing
+	// input for closures shared between BuildSorter calls (later cases would also see state left behind by earlier ones)
+	out = append(out, c13AxesCorpus()...)
 	rr := NewRand(13)
 	all := func(name string, keys []string) {
 		set := c13MakeSet(rr, keys)
@@ -1381,7 +1403,6 @@ func c13Corpus() []string {
 		out = append(out, c13TParseCases(rr, ks)...)
 	}
 	out = append(out, c13GroupsCorpus()...)
-	out = append(out, c13AxesCorpus()...)
 	out = append(out, "tparse "+HexS("2006-01-02T15:04:05-0700")+" "+HexListS([]string{"2022-09-03T10:00:00+0000", "2022-09-03T12:00:00+0200", "2022-09-03T05:00:00-0500",
 		"2022-09-03T10:00:00+2400", "2022-09-03T10:00:00+2500", "2022-09-03T10:00:00+0060", "2022-09-03T10:00:00+0061", "2022-09-03T10:00:00 0000", "2022-09-03T10:00:00Z",
 		"2022-09-03T24:00:00+0000", "2022-02-29T10:00:00+0000", "2024-02-29T10:00:00+0000", "2022-09-03T10:00:00.5+0000", "2022-09-03T10:00:00,25+0000", "2022-09-03T10:00:60+0000",
